@@ -48,6 +48,37 @@ def exhaustive(tier):
 MI_SIGS = [[((0, 0), 1), ((1, 0), 1)], [((1, 0), 2)], [((0, 1), 1), ((0, 0), 2)]]
 
 
+def _enumerate_perms(cfg, cx, run, data, sigs, L, B, nd, nmi, nb, ckey, why):
+    import jax.numpy as jnp
+    rng = np.random.default_rng(17)
+    blocks = [{kp: jnp.asarray(rng.normal(size=v.shape).astype(np.float32)) for kp, v in d.items()} for d in data]
+    perms = list(itertools.permutations(range(L))) if cfg["key"] == "perm" else [tuple(range(L))]
+    cx.note(f"C17: get_batches is not traceable with a symbolic permutation on the current source ({why}); L={L}: all {len(perms)} permutations run eagerly instead")
+
+    def check(pv):
+        r = run(jnp.asarray(pv, dtype=jnp.int32), blocks)
+        if len(r) != nmi or any(len(lst) != nb for lst in r):
+            return f"permutation {pv}: {[len(l) for l in r]} batches per multi-image, expected {nb}"
+        for j, sg in enumerate(sigs):
+            for i in range(nb):
+                for kp, c in sg:
+                    src = np.asarray(blocks[j][kp])
+                    exp = np.stack([src[pv[i * B + q]] for q in range(B)], axis=0).reshape((nd, B // nd) + src.shape[1:])
+                    got = np.asarray(r[j][i][kp]) if kp in r[j][i] else None
+                    if got is None or got.shape != exp.shape or not np.array_equal(got, exp):
+                        return f"permutation {pv}: batch {i} of multi-image {j}, type {kp} does not hold samples {[pv[i * B + q] for q in range(B)]}"
+        return None
+    bad, badpv = None, None
+    for pv in perms:
+        bad = check(pv)
+        if bad:
+            badpv = pv
+            break
+    cx.structural("every slot holds sample pi(iB+r) [all permutations enumerated eagerly]", bad is None, bad or "",
+                  replay=lambda v, b: ((check(badpv) is not None) if badpv is not None else any(check(q) for q in perms), bad or "re-enumerated"),
+                  key=f"enum:{ckey}")
+
+
 def run_cell(cfg, cx):
     import jax
     import jax.numpy as jnp
@@ -115,7 +146,18 @@ def run_cell(cfg, cx):
             batches = ml.get_batches(arg, B, None, devices)
         return [[dict(b.data) for b in lst] for lst in batches]
 
-    got = I.sym_call(run, perm, data)
+    try:
+        got = I.sym_call(run, perm, data)
+    except I.Unsupported:
+        raise
+    except Exception as e:  # noqa: BLE001
+        if not (getattr(e, "_seen_while_tracing", False) and I.real_code_frame(e) is not None):
+            raise
+        # The current get_batches cannot be traced with a symbolic permutation (e.g. Python control flow on the index values).
+        # It is only ever run eagerly, so decide the same bounded space by running it eagerly on EVERY permutation of range(L)
+        # (L! concrete runs instead of one solver query; recorded as such).
+        _enumerate_perms(cfg, cx, run, data, sigs, L, B, nd, nmi, nb, ckey, type(e).__name__)
+        return
     cx.structural("batch count", len(got) == nmi and all(len(lst) == nb for lst in got),
                   f"{[len(l) for l in got]} batches per multi-image, expected {nb}", key=f"count:{ckey}")
 
